@@ -10,10 +10,12 @@ package criteria_splitting
 
 //@ func (*CriteriaSplitCondition).validate
 //@   property C15 C16 C20 C07 C09 C01
+//@   indexsafe
 //@   panics_iff [ratio_or_bounds] !(0.0 <= c.Ratio && c.Ratio <= 1.0) || c.Max < c.Min
 
 //@ func (*CriteriaSplitCondition).SplitCriteriaByOrdering
 //@   property C15 C16 C20 C01 C07 C09
+//@   indexsafe
 //@   panics_iff [pivot_out_of_range] pivot(len(*sortedCriteria), *c) < 0 || pivot(len(*sortedCriteria), *c) > len(*sortedCriteria)
 //@   ensures [left]  fresh(result) && *result.Left == (*sortedCriteria)[0:pivot(len(*sortedCriteria), *c)]
 //@   ensures [right] *result.Right == (*sortedCriteria)[pivot(len(*sortedCriteria), *c):]
@@ -31,6 +33,7 @@ package criteria_splitting
 // Parse: every bound is what the request says; an absent max means no upper bound, an absent min / ratio means 0
 //@ func Parse
 //@   property C15 C16 C20 C07 C09 C01
+//@   indexsafe
 //@   ensures [as_requested_defaults_for_absent_keys] fresh(result)
 //@             && result.Max == (decoded_has(*props, "Max") ? decoded_int(*props, "Max") : 9223372036854775807)
 //@             && result.Min == (decoded_has(*props, "Min") ? decoded_int(*props, "Min") : 0)
